@@ -16,7 +16,7 @@ from vf.run import Check, Res
 from vf.spec import (
     CSE, C, Call, Pow, Prod, Quot, Sub, Sum, T, V, build, build_shared, show, sort_maps, to_spec)
 
-BUDGET = {"quick": 15000, "thorough": 250000}     # transitions per mapper pair
+BUDGET = {"quick": 21000, "thorough": 250000}     # transitions per mapper pair
 MAX_DEPTH = 5
 
 
@@ -49,9 +49,13 @@ POOL = [
     CSE(Sum(X, C(1)), "q"),                         # 12
     # 13: two user node classes over different bases asking for the same (unimplemented) handler
     Sum(("U:vf.usercls_gen.TaggedSum", T(X, C(4))), ("U:vf.usercls_gen.TaggedProduct", T(X, C(4)))),
+    # 14: old-style (init-args) nodes that differ only in their extra argument, by values whose
+    # hashes collide: the memo's hash probe cannot separate them, only == can
+    T(("U:vf.usercls_gen.VarL", ("str", "x"), C(-1)), ("U:vf.usercls_gen.VarL", ("str", "x"), C(-2)),
+      ("U:vf.usercls_gen.VarL", ("str", "y"), C(0)), ("U:vf.usercls_gen.VarL", ("str", "y"), C(2**61 - 1))),
 ]
 SHARED = {6}        # built with DAG sharing (the two Product(x, y) are one object)
-POOL_Q = [0, 1, 2, 3, 4, 6, 7, 8, 11, 12, 13]
+POOL_Q = [0, 1, 2, 3, 4, 6, 7, 8, 11, 12, 13, 14]
 # extra arguments of a call: (positional tuple, keyword items)
 ARGS = [((), ()), ((1,), ()), ((1.0,), ()), ((True,), ()), ((1, "a"), ()),
         ((), (("k", 1),)), ((), (("k", 2),)), ((1,), (("k", 1),)),
@@ -145,6 +149,13 @@ def pairs():
     CColl = type("CColl", (CachedCollector,), {"map_variable": collect_var})
     PColl = type("PColl", (Collector,), {"map_variable": collect_var})
 
+    from pymbolic.mapper import CSECachingMapperMixin
+
+    # a walker whose handlers all return None, memoizing ONLY its wrappers through the mix-in
+    class MixWalk(CSECachingMapperMixin, WalkMapper):
+        def map_common_subexpression_uncached(self, expr, *a, **k):
+            return WalkMapper.map_common_subexpression(self, expr, *a, **k)
+
     subst = {"x": p.Variable("y"), p.Variable("y"): p.Sum((p.Variable("x"), 4.0))}
     out = {
         "identity": (lambda: instrument(CachedIdentityMapper)(), lambda: IdentityMapper(), True),
@@ -152,6 +163,7 @@ def pairs():
         "combine": (lambda: instrument(CComb)(), lambda: PComb(), True),
         "collector": (lambda: instrument(CColl)(), lambda: PColl(), True),
         "walk": (lambda: instrument(CachedWalkMapper)(), lambda: WalkMapper(), True),
+        "cse-mixin-walk": (lambda: instrument(MixWalk)(), lambda: WalkMapper(), True),
         "evaluation": (lambda: instrument(CachedEvaluationMapper)(_ctx()),
                        lambda: EvaluationMapper(_ctx()), False),
         "substitution": (lambda: instrument(CachedSubstitutionMapper)(make_subst_func(subst)),
@@ -163,6 +175,35 @@ def pairs():
             lambda flags=flags: instrument(CachedDependencyMapper)(**flags),
             lambda flags=flags: DependencyMapper(**flags), False)
     return out
+
+
+def wide_failure(name, n):
+    """ONE call on an expression with more than *n* distinct nodes, every one of which occurs a
+    second time later in the tree: (v0 + ... + v_n-1) / (v0 * ... * v_n-1) + (v0 + ... + v_n-1).
+    Same result as the non-memoizing mapper, and no key computed twice."""
+    import pymbolic.primitives as p
+    make_c, make_p, _ = pairs()[name]
+    vs = tuple(p.Variable(f"v{i}") for i in range(n))
+    s1 = p.Sum(vs)
+    expr = p.Sum((p.Quotient(s1, p.Product(vs)), p.Sum(vs)))
+    m = make_c()
+    m._vf_log = []
+    import sys
+    old = sys.getrecursionlimit()
+    try:
+        res = m(expr)
+        want = make_p()(expr)
+    finally:
+        sys.setrecursionlimit(old)
+    if norm_result(res) != norm_result(want):
+        return ("result", f"{n} distinct operands: the memoizing mapper and a fresh non-memoizing "
+                "one disagree")
+    cnt = Counter(k[:2] for k in m._vf_log)
+    dup = [k for k, v in cnt.items() if v > 1]
+    if dup:
+        return ("recomputed", f"{n} distinct operands, each occurring three times: {len(dup)} keys "
+                f"were computed more than once, e.g. handler {dup[0][0]} for {show_res(dup[0][1])}")
+    return None
 
 
 DEP_PARAMS = ("include_subscripts", "include_lookups", "include_calls", "include_cses",
@@ -187,6 +228,9 @@ def parity_failure(vec):
                 f"{show_res(n['cached'])}")
     return None
 
+
+# pairs that memoize only some handlers: the at-most-once clause applies to those
+DUP_ONLY = {"cse-mixin-walk": "map_common_subexpression_uncached"}
 
 OPT_NAMES = ("drop_args", "drop_kwargs", "inline_rec", "inline_cache", "inline_get_cache_key")
 
@@ -235,14 +279,16 @@ class C05(Check):
             "(expression, extra-argument tuple) with expressions from a pool built for sharing "
             "(equal-but-not-identical subtrees, DAG sharing, 4 / 4.0 / True as leaves, in a tuple "
             "and at top level, one CSE wrapper twice, two user node classes over different bases "
-            "that name the same unimplemented handler) and arguments from {(), (1,), (1.0,), "
+            "that name the same unimplemented handler, old-style nodes differing in a hash-colliding "
+            "extra argument) and arguments from {(), (1,), (1.0,), "
             "(True,), (1,'a'), k=1, k=2, (1, k=1), (k=1, j=2), (j=2, k=1)}; all histories up to the largest depth whose complete exploration "
             "fits 15k (quick) / 250k (thorough) transitions per mapper pair (depth 3-5); pairs: identity, argument-dependent renamer, leaf-counting combine, collector, "
             "walk, evaluation, substitution, dependency x 3 flag settings, and every class the "
             "optimizer produces from 5 source classes (a renamer, a flattener, a None-returning walker, "
             "two argument-keeping mappers) (32 + 32 + 32 + 4 + 4 option combinations), each "
             "in a fresh process state and after an earlier use of the optimizer with other "
-            "options; constructor parity: every prefix of every positional flag vector gives "
+            "options; wide: one call on a tree with 1100 (thorough 300 / 1100 / 2100) distinct operands "
+            "that all occur three times, no key computed twice; constructor parity: every prefix of every positional flag vector gives "
             "CachedDependencyMapper, DependencyMapper and the documented keywords the same result. A "
             "state is a history with exact repeats removed; every transition replays its history "
             "on a fresh instance. Non-trivial = history of length >= 2; distinct = distinct "
@@ -276,13 +322,26 @@ class C05(Check):
                                          (None, True, False)):
                 for n in range(1, 6):
                     yield ("parity", vec[:n])
+        def wide():
+            for name in pairs():
+                if name in ("evaluation", "substitution", "cse-mixin-walk"):
+                    continue
+                for n in ((1100,) if tier == "quick" else (300, 1100, 2100)):
+                    yield ("wide", name, n)
         return [("stock-pairs", stock), ("optimized", optimized),
-                ("constructor-parity", parity)]
+                ("constructor-parity", parity), ("wide", wide)]
 
     def check_item(self, family, item, tier):
         r = Res()
         if item[0] == "replay":             # a recorded witness carries the tier it was found in
             tier, item = item[1], tuple(item[2])
+        if item[0] == "wide":
+            r.evals += 1
+            r.keys.append(item)
+            f = wide_failure(item[1], item[2])
+            if f:
+                r.fail(f[0], f"{f[0]}|{item[1]}|n={item[2]}", f[1])
+            return r
         if item[0] == "parity":
             r.evals += 1
             r.keys.append(item)
@@ -312,6 +371,8 @@ class C05(Check):
         if item[0] == "opt" and item[1] == "OptArgRenamer":
             args = [((1,), ()), ((1.0,), ()), ((True,), ())] if tier == "thorough" \
                 else [((1,), ()), ((1.0,), ())]
+        elif label == "cse-mixin-walk":
+            args = [((), ()), ((1,), ()), ((1.0,), ())]      # the mix-in takes no keywords
         elif takes_args:
             args = ARGS_Q if tier == "quick" else ARGS
         else:
@@ -340,7 +401,8 @@ class C05(Check):
                          f"{show_res(got_n)}, a fresh non-memoizing mapper returns "
                          f"{show_res(want_n)}"), None)
             cnt = Counter(m._vf_log)
-            dup = [k for k, v in cnt.items() if v > 1]
+            dup = [k for k, v in cnt.items() if v > 1
+                   and (label not in DUP_ONLY or k[0] == DUP_ONLY[label])]
             if dup:
                 k = dup[0]
                 return (("recomputed", f"in history {fmt(hist)} handler {k[0]} ran {cnt[k]} times "
